@@ -307,6 +307,7 @@ func (node *Insert) walkSubtree(visit Visit) error {
 		node.Columns,
 		node.Rows,
 		node.OnDup,
+		node.Returning,
 	)
 }
 
@@ -334,6 +335,7 @@ func (node *Update) walkSubtree(visit Visit) error {
 		node.Where,
 		node.OrderBy,
 		node.Limit,
+		node.Returning,
 	)
 }
 
@@ -365,6 +367,7 @@ func (node *Delete) walkSubtree(visit Visit) error {
 		node.Where,
 		node.OrderBy,
 		node.Limit,
+		node.Returning,
 	)
 }
 
@@ -875,7 +878,7 @@ func (node *Execute) Format(buf *TrackedBuffer) {
 }
 
 func (node *Execute) walkSubtree(visit Visit) error {
-	return Walk(visit, node.Using, node.PreparedStatementName)
+	return Walk(visit, node.Using, node.PreparedStatementName, node.Values)
 }
 
 // Format formats the node.
